@@ -314,6 +314,9 @@ func vf35GenState(rt *rapid.T) *vf35State {
 		if rapid.IntRange(0, 9).Draw(rt, fmt.Sprintf("extra%d_big", i)) == 0 {
 			// beyond 16 bits: the 24-bit length fields are really used
 			d.Extra = append(d.Extra, bytes.Repeat([]byte{byte(i + 1)}, rapid.IntRange(65530, 66000).Draw(rt, fmt.Sprintf("extra%d_len", i))))
+		} else if rapid.IntRange(0, 4).Draw(rt, fmt.Sprintf("extra%d_nil", i)) == 0 {
+			// a layer that reserved its slot without data: a nil entry is an entry (it comes back empty, at its index)
+			d.Extra = append(d.Extra, nil)
 		} else {
 			d.Extra = append(d.Extra, vf35GenBytes(rt, fmt.Sprintf("extra%d", i), 0, 40))
 		}
